@@ -176,6 +176,8 @@ def execute(prop, scen):
     else:
         for name, obj in comp.forecasters:
             user_ids[name] = id(obj)
+        if kind == "stack":
+            user_ids["meta"] = id(comp.final_regressor)
     sc = sched.Scheduler(scen["sched"]["mode"], scen["sched"]["seed"], scen["sched"]["p"])
     ref = Reference(spec, steps)
     pos = scen["n0"]
@@ -453,6 +455,11 @@ def check_fit_dataflow(v, res, spec, log, y0, steps, ref, user_ids):
         meta = _by_tag(log, "meta", "fit")
         if len(meta) != 1:
             v("meta_fit_count", "meta-regressor fitted %d times" % len(meta))
+            return
+        if meta[0].get("obj") == user_ids.get("meta"):
+            v("member_not_cloned", "the user's own final_regressor object was fitted, not a clone "
+              "(two stacking forecasters built with the same regressor would overwrite each other)",
+              part="final_regressor")
             return
         Xm, ym = np.asarray(meta[0]["X"], float), np.asarray(meta[0]["y"], float)
         if Xm.shape != ref.X_meta.shape or not np.allclose(Xm, ref.X_meta, rtol=1e-7, atol=1e-7):
